@@ -572,6 +572,18 @@ func hunt(o Opts) {
 			}
 		}
 	}
+	if !done && o.N > 0 {
+		// the directed families first (stale receiver entries of MdotV/VdotM, interleaved joint walks, stored zeros)
+		rng := NewRng(o.Seed*1000003 + 32452843)
+		for k := 0; k < 270 && !done; k++ {
+			c := genDirected(rng.Split(), typeNames[k%len(typeNames)], nil, k/len(typeNames))
+			r.Tried++
+			if f, _ := propCheckM(c); f != "" {
+				reportM(c)
+				done = true
+			}
+		}
+	}
 	if !done {
 		rng := NewRng(o.Seed + 15485863)
 		for k := 0; k < o.N/2 && !done; k++ {
